@@ -20,11 +20,34 @@ RULE = (
 ASSUMPTIONS = ["option values are drawn from tables/option_domains.json (transcribed from docs/configuring_*.rst and the rule docs)"]
 
 
+LIST_OPTIONS = ("exceptions", "case_exceptions", "prefix_exceptions", "suffix_exceptions", "prefixes", "suffixes", "keywords", "names", "patterns")
+
+
 def fixed_cases(tier):
     out = []
     files = corpus.small_files(60)
     for i, s in enumerate([None, "jcl", "indent_only"]):
         out.append({"style": s, "cseed": 0, "file": files[i * 7 % len(files)], "plain": True})
+    # every list-valued option with a value whose order is not the sorted order, on the rule's own fixture: the emitted
+    # configuration must keep the list as given (order can matter: first match wins, lists are quoted in solutions)
+    dom = configs.domains()
+    for opt in LIST_OPTIONS:
+        n = 0
+        for ent in dom.get(opt, []):
+            vals = [v for v in ent["values"] if isinstance(v, list) and len(v) >= 2 and v != sorted(v)]
+            if not vals:
+                vals = [list(reversed(sorted(v))) for v in ent["values"] if isinstance(v, list) and len(v) >= 2][:1]
+            for rid in ent["rules"][: (2 if tier == "quick" else 6)]:
+                name, ident = rid.rsplit("_", 1)
+                cand = [f for f in corpus.files() if f.endswith("/rule_%s_test_input.vhd" % ident) and ("/%s/" % name in f or "/%s_statement/" % name in f or "/%s_definition/" % name in f)]
+                if not cand or not vals or len(corpus.lines(cand[0])) > 200:
+                    continue
+                out.append({"style": None, "cseed": n, "file": cand[0], "stack": [{"rule": {rid: {opt: vals[n % len(vals)], "disable": False}}}]})
+                n += 1
+                if n >= (3 if tier == "quick" else 10):
+                    break
+            if n >= (3 if tier == "quick" else 10):
+                break
     return out
 
 
